@@ -29,11 +29,11 @@ CHECKS["C20"] = ("exploration", "schedule control at 11 yield points of follower
   "goroutines are parked only at hook points (outside database transactions); API server and chain notifications are stopped before WalletManager.Stop as in loader.go; bounded progress (40-60 s) stands in for 'eventually'", "§5 C20")
 
 CHECKS["C19"] = ("exploration", "request-grammar monitor: every wallet-facing api.APIServer handler called by reflection under recover() with a 60 s watchdog, requests drawn from a field-name aware grammar over the live wallet state (valid / valid-with-one-field-replaced / generated), interleaved with hostile blocks, unconfirmed transactions, reorganisations, held imports/removals and restarts; follower liveness and logrus exit-handler monitor after every chain event; a tenth under the Go race detector",
-  "no handler may panic, return neither response nor error, or hang with a structural deadlock; after every delivered block / unconfirmed transaction the follower must have consumed it and no wallet goroutine may have died",
+  "no handler may panic, return neither response nor error, hang with a structural deadlock, or still run after the watchdog and 200 000 storage calls (unbounded work); a 10 GiB memory guard ends a child whose wallet code allocates without bound; after every delivered block / unconfirmed transaction the follower must have consumed it and no wallet goroutine may have died",
   "handlers that only proxy to the consensus node are not exercised (no such node in the simulator); request strings valid UTF-8, no nil messages; chain events restricted to output classes block validation accepts; consensus minimum staking value lowered to 1 MASS per case", "§5 C19")
 
 CHECKS["C17"] = ("exploration", "schedule control through the wallet-database interposer: each of four queries is parked in front of every one of its database reads while 1-2 tips (connect / reorg) are committed and the same question is asked undisturbed at every boundary; answer must equal one boundary's answer, a built transaction must be spendable at one boundary per the reference ledger; plus seven API goroutines against follower and worker under the Go race detector",
-  "for every read gap of WalletBalance(detail), AddressBalance, GetUtxo and AutoCreateRawTransaction (quick: ≤14 gaps per query and case, thorough: all) the gated answer is compared with the set of boundary answers; race reports in which wallet code performs at least one of the two accesses are violations",
+  "for every read gap of WalletBalance(detail), AddressBalance, GetUtxo and AutoCreateRawTransaction (quick: ≤14 sampled gaps per query and case plus every phase boundary of multi-transaction calls, also in a two-tip variant with a large wallet coinbase; thorough: all) the gated answer is compared with the set of boundary answers; race reports in which wallet code performs at least one of the two accesses are violations",
   "boundary answers come from the wallet itself (C01 checks them against the ledger); a building call that refuses with an error during a reorganisation is counted, not judged; races between two third-party accessors (mass-core ChainDb.NewestSha vs Commit, logger) are listed in the evidence, not judged", "§5 C17")
 
 CHECKS["C11"] = ("exploration", "reference-model monitor (nested in-memory map with pending overlay) after every operation + porcupine linearizability check of concurrent transaction histories + Go race detector on a tenth of them",
@@ -69,18 +69,18 @@ CHECKS["C04"] = ("exploration", "metamorphic cross-instance monitor (create / ke
   "trusts harness BIP-39/BIP-32 references (C13/C14 checks), btcec verification; wallets in the C14 known-finding class are checked for cross-instance equality only", "§5 C04")
 
 CHECKS["C05"] = ("exploration", "needle-scan monitor over the raw wallet database (all keys/values and raw file bytes after close), exported keystores and error strings + refused-attempt monitor (passphrase error, zero commits, right passphrase still works)",
-  "after seeded operation sequences on 1-3 wallets the persisted bytes and every output are searched for each wallet's secrets in four encodings; every wrong-passphrase attempt from a hostile candidate family on export / mnemonic / remove / sign must be refused without a database commit, across restarts and a wrong public passphrase",
+  "after seeded operation sequences on 1-3 wallets the persisted bytes and every output are searched for each wallet's secrets in four encodings; every wrong-passphrase attempt from a hostile candidate family on export / mnemonic / remove / sign must be refused without a database commit, across restarts and a wrong public passphrase; after every SignHash / SignRawTx (also one that fails on a later input) the right passphrase must still export and reveal the mnemonic twice in a row",
   "memory zeroing is not observable and not checked; secrets are derived with harness references and the repo's hdkeychain", "§5 C05")
 
 CHECKS["C06"] = ("fault_enumeration", "crash-point enumeration through the storage interposer (freeze-and-abandon at every wallet-database commit boundary, both sides, plus double crashes) with a never-stopped twin and the reference ledger as oracles",
-  "for each deterministic scenario variant (live following with reorgs; orderly stop + node moves on + start-up catch-up; background removal while blocks arrive) every commit boundary k of the crash-free run is used as crash point before and after the commit; the restarted wallet must come up, finish background work and end in exactly the twin's observation record and the ledger",
-  "crash model: the files hold exactly the first k commits (LevelDB batch write is the only write path); volatile state is lost by abandoning the instance; multi-batch imports are covered by C07", "§5 C06")
+  "for each deterministic scenario variant (live following with reorgs; orderly stop + node moves on + start-up catch-up; background removal while blocks arrive; two-batch import on a > 1000-block chain, boundaries of the import phase) every commit boundary k of the crash-free run is used as crash point before and after the commit; the restarted wallet must come up, finish background work and end in exactly the twin's observation record and the ledger",
+  "crash model: the files hold exactly the first k commits (LevelDB batch write is the only write path); volatile state is lost by abandoning the instance; a wallet that stays importing/removing while every wallet goroutine is idle (goroutine-dump classifier) is a violation, a mere time-out inconclusive", "§5 C06")
 
 CHECKS["C07"] = ("exploration", "reference-ledger monitor on a wallet restored from its mnemonic, with schedule control through a node-database interposer (rescan worker held inside the calls of a batch while chain changes are committed) and status / bounded-progress monitors",
   "a wallet known only by its mnemonic (addresses derived independently, index gaps below the gap limit) is restored on a chain containing its history; reorgs and new blocks are injected while the rescan transaction is open, also on 2100-3200-block chains with ≥3 batches; while importing it must be listed as importing and refuse selection/removal; it must finish within a bounded number of worker rounds and then equal the ledger",
-  "the original live-watching wallet is represented by the reference ledger (C01); injected reorgs reach the whole scanned range only on short chains", "§5 C07")
+  "the original live-watching wallet is represented by the reference ledger (C01); on the long chains a reorganisation from 1-3 blocks below the committed rescan cursor up to the tip is injected between two batches; a stalled import with all goroutines idle is a violation", "§5 C07")
 
-CHECKS["C08"] = ("exploration", "raw residue scan of the closed wallet database with an explicit allowed-residue rule + reference-ledger monitor on survivors + build/sign probes + re-import of the removed mnemonic; worker parked between removal rounds for a restart",
+CHECKS["C08"] = ("exploration", "raw residue scan of the closed wallet database with an explicit allowed-residue rule + reference-ledger monitor on survivors + build/sign probes + re-import of the removed mnemonic; worker parked between removal rounds for a restart, and between the two removal phases while blocks pay and spend the victim's coins",
   "after a removal in a multi-wallet shared history (pending transactions, staking/binding records, > 20 000 credits for multi-round removal, restart between rounds) the database must hold no entry naming the removed wallet's id, addresses or script hashes except pending transactions a survivor needs; survivors must equal the ledger and still build and sign; the mnemonic must import again and equal the ledger",
   "allowed residue is defined before looking at the code's result; refusal cases (wrong passphrase, importing) are covered by C05/C07", "§5 C08")
 
